@@ -7,9 +7,12 @@
    Model (model/ReaderModel.v, model/ChunkModel.v): Reader.feed with explicit slab memory and the
    buffer sizes as parameters, ChunkList Push/Snapshot/Clear/CountItems with chunkSize as a parameter,
    the item builder of core.go.
+   model/InputModel.v: how core.go's Run puts them together - the two --filter paths (collect-then-scan and
+   streaming, each with its own Reader) and the interactive coordinator (restart on reload / reload-sync,
+   snapshots on EvtReadNew / EvtReadFin).
    cuts_ok cuts: the reads the OS delivers — any byte counts, with fewer than 100 consecutive
    (0,nil) reads (the code gives up after 100). *)
-From Fzf Require Import Prelude RecordSpec ReaderModel ChunkModel ReaderProofs ChunkProofs.
+From Fzf Require Import Prelude RecordSpec ReaderModel ChunkModel InputModel ReaderProofs ChunkProofs InputProofs.
 Open Scope Z_scope.
 
 (* The spec is the reading of a stream: writing records rs (delimiter-free), each terminated, followed by
@@ -96,6 +99,45 @@ Theorem pipeline_correct : forall bufsz slabsz size read0 hl tail s cuts,
 Proof. exact pipeline_correct_proof. Qed.
 Print Assumptions pipeline_correct.
 
+(* ☆ --filter mode, empty query: whichever path core.go takes (collecting: default / --tac / --sync; streaming:
+   --no-sort alone) the header is the first hl records and the listing is the searchable items in stream order
+   (newest first under --tac).  The streaming path never takes a snapshot; it is not chosen when --tail is given
+   (fix d7ddb0d; the former rule is refuted below: filter_streaming_tail_refuted_old). *)
+Theorem filter_mode_paths : forall bufsz slabsz size o s cuts,
+  (1 <= bufsz)%nat -> (1 <= slabsz)%nat -> (1 <= size)%nat -> cuts_ok cuts ->
+  filter_run bufsz slabsz size o s cuts =
+  Ok (header_of (f_hl o) (split_records (delim_of (f_read0 o)) s),
+      filter_listing (f_read0 o) (f_tac o) (f_hl o) (f_tail o) s).
+Proof. exact filter_mode_paths_proof. Qed.
+Print Assumptions filter_mode_paths.
+
+(* REGRESSION WITNESS (defect repaired in /repo d7ddb0d): with the former rule `fzf --filter Q --no-sort --tail N`
+   took the streaming path and listed ALL records, not the last N (core.go: "Streaming filter is inherently not
+   compatible with --tail").  a\nb\nc\n with --tail 1 listed a, b, c. *)
+Theorem filter_streaming_tail_refuted_old : exists o s cuts,
+  streaming_rule_old o = true /\ cuts_ok cuts /\
+  filter_listing (f_read0 o) (f_tac o) (f_hl o) (f_tail o) s = [(2%nat, [99])] /\
+  filter_run_with streaming_rule_old 8 16 4 o s cuts = Ok ([], [(0%nat, [97]); (1%nat, [98]); (2%nat, [99])]) /\
+  filter_run 8 16 4 o s cuts = Ok ([], [(2%nat, [99])]).
+Proof.
+  exists (mkF false false false false 0 1), [97; 10; 98; 10; 99; 10], [6%nat].
+  repeat split; vm_compute; reflexivity.
+Qed.
+Print Assumptions filter_streaming_tail_refuted_old.
+
+(* ☆ interactive sessions: the input is replaced any number of times (reload: the list follows the new stream
+   as it arrives; reload-sync: the old list stays until the new stream has been read), records reach the
+   builder in any batches, a snapshot (with --tail trimming) after each batch.  After every source has been
+   read completely the list is the reading of THAT stream alone: header lines diverted again, items numbered
+   from the start of that stream, last `tail` kept - whatever was loaded before. *)
+Theorem reload_session_numbering : forall bufsz slabsz size read0 hl tail (ls : list load),
+  (1 <= bufsz)%nat -> (1 <= slabsz)%nat -> (1 <= size)%nat ->
+  Forall (fun l => cuts_ok (l_cuts l)) ls ->
+  run_session bufsz slabsz size read0 hl tail cinit ls =
+  Ok (session_views read0 hl tail (map l_stream ls)).
+Proof. intros. apply reload_session_numbering_proof; assumption. Qed.
+Print Assumptions reload_session_numbering.
+
 (* FINDING (Windows only; trimCR = util.IsWindows(), not reachable on this platform): with \r trimming the
    result DOES depend on how the stream is cut — the check `slice[len-2] == '\r'` looks at the current read
    only, so "a\r\n" delivered as "a\r" + "\n" keeps the \r.  The chunking invariant is false of the faithful
@@ -149,3 +191,26 @@ Example c06_nonvacuous_pipeline :
   pipeline 4 6 2 false 1 2 [97;98;10;10;99;100;101;10;102] [1;0;2]%nat
   = Ok ([[97;98]], [(1%nat, [99;100;101]); (2%nat, [102])]).
 Proof. vm_compute. reflexivity. Qed.
+
+(* the streaming filter path (--no-sort) and the collecting path under --tac, NUL-delimited records holding
+   newlines, one header line: same records, reversed listing under --tac *)
+Example c06_nonvacuous_filter_paths :
+  let s := [97;10;98;0;99;0;0;100;10;101] in
+  streaming_filter (mkF true false false false 1 0) = true /\
+  filter_run 4 6 2 (mkF true false false false 1 0) s [3;0;2]%nat
+    = Ok ([[97;10;98]], [(0%nat, [99]); (1%nat, []); (2%nat, [100;10;101])]) /\
+  streaming_filter (mkF true false true false 1 2) = false /\
+  filter_run 4 6 2 (mkF true false true false 1 2) s [3;0;2]%nat
+    = Ok ([[97;10;98]], [(2%nat, [100;10;101]); (1%nat, [])]).
+Proof. repeat split; vm_compute; reflexivity. Qed.
+
+(* a session: 5 records, then reload-sync with 3 records in two batches, then reload with 4 records, --tail 2,
+   one header line, chunk size 2: every list is numbered from the start of its own stream *)
+Example c06_nonvacuous_session :
+  let l1 := mkL false [49;10;50;10;51;10;52;10;53;10] [4;0;3]%nat [2]%nat in
+  let l2 := mkL true [97;10;98;10;99;10] [] [1;1]%nat in
+  let l3 := mkL false [120;10;121;10;122;10;119] [2]%nat [3]%nat in
+  Forall (fun l => cuts_ok (l_cuts l)) [l1; l2; l3] /\
+  run_session 4 6 2 false 1 2 cinit [l1; l2; l3] =
+    Ok [[(2%nat, [52]); (3%nat, [53])]; [(0%nat, [98]); (1%nat, [99])]; [(1%nat, [122]); (2%nat, [119])]].
+Proof. split; [repeat constructor|vm_compute; reflexivity]. Qed.
